@@ -153,12 +153,7 @@ func TestShard(t *testing.T) {
 			_ = os.WriteFile(statsPath, b, 0o644)
 		}
 	}()
-	excluded := map[string]int{}
-	genExcluded = func(what string) { excluded[what]++ }
-	rapid.Check(t, func(rt *rapid.T) {
-		c := p.Gen(rt)
-		c.Prop = prop
-		v := ev.eval(c, false)
+	record := func(c *Case, v Verdict) {
 		st.Evaluations++
 		st.Verdicts[v.Kind]++
 		for l, n := range v.Stats.Labels {
@@ -174,6 +169,27 @@ func TestShard(t *testing.T) {
 				}
 			}
 		}
+	}
+	// Static (pinned) cases of the property run first, in shard 0 only.
+	if p.Pinned != nil && os.Getenv("VERIF_SHARD_INDEX") == "0" {
+		for _, c := range p.Pinned() {
+			c.Prop = prop
+			v := ev.eval(c, false)
+			record(c, v)
+			st.Labels["pinned_static_cases"]++
+			if viol, _ := isViolation(p, v); viol {
+				st.Failing = &failRec{Case: c, Verdict: v}
+				t.Fatalf("%s %s on pinned case: %s", prop, v.Kind, v.Reason)
+			}
+		}
+	}
+	excluded := map[string]int{}
+	genExcluded = func(what string) { excluded[what]++ }
+	rapid.Check(t, func(rt *rapid.T) {
+		c := p.Gen(rt)
+		c.Prop = prop
+		v := ev.eval(c, false)
+		record(c, v)
 		viol, inc := isViolation(p, v)
 		if inc {
 			if len(st.Inconcl) < 5 {
